@@ -9,11 +9,20 @@ Encryption (08).  A Write Without Encryption command is all-or-nothing (validate
 any block is changed), is logged in `self.log` and counted in `self.nwrites`; `cut_after=k` makes
 the tag lose power right after the k-th executed write (k=0: before the first): `exchange()` then
 returns None until `power_on()`.  `self.breaches` collects what a conforming reader must never do.
+
+Multi-system cards (nsys = 1..3, ndef_pos): every system has its own IDm (the system number is the upper
+nibble of IDm byte 0, as on real FeliCa cards) and PMm; the NFC Forum system 12FCh sits at position
+ndef_pos, the others are proprietary systems (8008h, FE00h) that have no NDEF services but their own
+copy of the unrelated service 0x1009.  Polling is answered by the first system whose code matches
+(FFFFh / FFh bytes are wildcards, so FFFFh finds system 0); any other command is executed by the system
+that owns the IDm it carries, a foreign IDm is not answered at all.
 """
 
 SC_NDEF_RO = 0x000B
 SC_NDEF_RW = 0x0009
 SC_OTHER = 0x1009
+SYS_NDEF = 0x12FC
+SYS_FOREIGN = (0x8008, 0xFE00, 0x0003)
 
 
 def attr_bytes(ver, nbr, nbw, nmaxb, writef, rwflag, ln, rfu=0, bad_checksum=False):
@@ -105,7 +114,7 @@ class _Blocks(object):
 class SimT3T(object):
     def __init__(self, attr, data=b"", nblocks=None, idm=bytes.fromhex("02FE000102030405"),
                  pmm=bytes.fromhex("00FFFFFFFFFFFFFF"), nbr_phys=None, nbw_phys=None,
-                 other=b"\x5A" * 32, cut_after=None, fill=0x00, gen=None):
+                 other=b"\x5A" * 32, cut_after=None, fill=0x00, gen=None, nsys=1, ndef_pos=0):
         attr = bytes(attr)
         assert len(attr) == 16
         nmaxb = int.from_bytes(attr[3:5], "big")
@@ -114,8 +123,19 @@ class SimT3T(object):
         self.nblocks, self.gen = nblocks, gen
         self.blocks = _Blocks(attr, nblocks, gen, mem)
         self.written = set()        # data blocks changed by an executed write (lazy tags: the materialised ones)
-        self.other = [bytearray(other[i:i + 16]) for i in range(0, len(other), 16)]
-        self.idm, self.pmm = bytes(idm), bytes(pmm)
+        assert 1 <= nsys <= 3 and 0 <= ndef_pos < nsys
+        self.nsys, self.ndef_pos = nsys, ndef_pos
+        # the unrelated service of every system (system k starts with a different fill)
+        self.others = [[bytearray(bytes((x + 37 * k) & 0xFF for x in other[i:i + 16]))
+                        for i in range(0, len(other), 16)] for k in range(nsys)]
+        self.other = self.others[ndef_pos]
+        foreign = iter(SYS_FOREIGN)
+        self.systems = []           # (system code, IDm, PMm) in system order
+        for k in range(nsys):
+            code = SYS_NDEF if k == ndef_pos else next(foreign)
+            self.systems.append((code, bytes([k << 4 | idm[0] & 0x0F]) + bytes(idm[1:]), bytes(pmm[:7]) + bytes([0xF0 | k])))
+        self.idm, self.pmm = self.systems[ndef_pos][1], self.systems[ndef_pos][2]
+        self.read_sys = []          # system addressed by every read command received
         self.nbr_phys = attr[1] if nbr_phys is None else nbr_phys
         self.nbw_phys = attr[2] if nbw_phys is None else nbw_phys
         self.writable = attr[10] != 0
@@ -125,14 +145,26 @@ class SimT3T(object):
         self.reads = []             # list of block-number lists per executed read command
         self.breaches = []
         self.powered = True
+        self.cur = ndef_pos
 
     def power_on(self):
         self.powered = True
         self.cut_after = None
         self.reads = []
+        self.read_sys = []
 
-    def sensf_res(self):
-        return b"\x01" + self.idm + self.pmm + b"\x12\xFC"
+    def sensf_res(self, act="ndef"):
+        """What a reader's poll finds: act = "ndef" (poll for 12FCh, request code 1), "wild" (poll for FFFFh,
+        request code 1: system 0 answers with its system code), "nocode" (FFFFh, request code 0)."""
+        code, idm, pmm = self.systems[self.ndef_pos if act == "ndef" else 0]
+        return b"\x01" + idm + pmm + (b"" if act == "nocode" else code.to_bytes(2, "big"))
+
+    def system_of(self, idm):
+        """index of the system that owns this IDm, -1 if none"""
+        for k, (code, i, p) in enumerate(self.systems):
+            if bytes(idm) == i:
+                return k
+        return -1
 
     def attr_block(self):
         return bytes(self.blocks.attr)
@@ -144,7 +176,8 @@ class SimT3T(object):
         return [[b, list(self.blocks[b])] for b in bs]
 
     def other_memory(self):
-        return b"".join(bytes(b) for b in self.other)
+        """the unrelated service of all systems, in system order"""
+        return b"".join(bytes(b) for o in self.others for b in o)
 
     # ------------------------------------------------------------------------------------------
     def exchange(self, frame):
@@ -156,12 +189,17 @@ class SimT3T(object):
         code = frame[1]
         if code == 0x00:
             return self._polling(frame[2:])
-        if len(frame) < 10 or frame[2:10] != self.idm:
+        if len(frame) < 10:
             return None
+        self.cur = self.system_of(frame[2:10])           # the system that executes this command
+        if self.cur < 0:
+            return None
+        idm = self.systems[self.cur][1]
         body = frame[10:]
         if code == 0x06:
+            self.read_sys.append(self.cur)
             rsp = self._read(body)
-            return self._frame(0x07, self.idm + rsp)
+            return self._frame(0x07, idm + rsp)
         if code == 0x08:
             if self.cut_after is not None and self.nwrites >= self.cut_after:
                 self.powered = False
@@ -171,7 +209,7 @@ class SimT3T(object):
             if self.cut_after is not None and self.nwrites > n0 and self.nwrites >= self.cut_after:
                 self.powered = False
                 return None
-            return self._frame(0x09, self.idm + rsp)
+            return self._frame(0x09, idm + rsp)
         return None
 
     @staticmethod
@@ -182,27 +220,30 @@ class SimT3T(object):
         if len(p) != 4:
             return None
         sc, rc = p[0:2], p[2]
-        for a, b in zip(sc, b"\x12\xFC"):
-            if a != 0xFF and a != b:
-                return None
-        rsp = self.idm + self.pmm
-        if rc == 1:
-            rsp += b"\x12\xFC"
-        elif rc == 2:
-            rsp += b"\x00\x83"
-        return self._frame(0x01, rsp)
+        for code, idm, pmm in self.systems:
+            have = code.to_bytes(2, "big")
+            if all(a in (0xFF, b) for a, b in zip(sc, have)):
+                rsp = idm + pmm
+                if rc == 1:
+                    rsp += have
+                elif rc == 2:
+                    rsp += b"\x00\x83"
+                return self._frame(0x01, rsp)
+        return None
 
     def _lists(self, body):
         err, scs, lst, rest = parse_lists(body)
         if err:
             return err, None, None
         for sc in scs:
-            if sc not in (SC_NDEF_RO, SC_OTHER) and not (sc == SC_NDEF_RW and self.writable):
-                return b"\xFF\xA6", lst, rest
+            if sc == SC_OTHER:
+                continue
+            if self.cur != self.ndef_pos or not (sc == SC_NDEF_RO or (sc == SC_NDEF_RW and self.writable)):
+                return b"\xFF\xA6", lst, rest          # no such service in this system
         return None, lst, rest
 
     def _area(self, sc):
-        return self.other if sc == SC_OTHER else self.blocks
+        return self.others[self.cur] if sc == SC_OTHER else self.blocks
 
     def _read(self, body):
         err, lst, rest = self._lists(body)
@@ -225,7 +266,8 @@ class SimT3T(object):
         err, lst, rest = self._lists(body)
         if lst is None:
             return err
-        rec = dict(sc=[sc for sc, num in lst], blocks=[num for sc, num in lst], data=bytes(rest), ok=False)
+        rec = dict(sys=self.cur, sc=[sc for sc, num in lst], blocks=[num for sc, num in lst], data=bytes(rest),
+                   ok=False)
         if len(rest) != 16 * len(lst):
             return b"\xFF\xA2"
         self.log.append(rec)
